@@ -267,14 +267,15 @@ class History(RuleBasedStateMachine):
         self.classes.add('same_path_rewrite')
 
     @precondition(lambda self: self.state['loaded'] is not None)
-    @rule(t=st.integers(0, 5))
-    def classify(self, t):
-        self.steps.append(['classify', t])
+    @rule(t=st.integers(0, 5), with_rows=st.sampled_from([True, True, False]))
+    def classify(self, t, with_rows=True):
+        # (a call WITHOUT supplemental rows after one with them: what the engine was given before is no part of this call)
+        self.steps.append(['classify', t] if with_rows else ['classify', t, False])
         if len({i for _, i in self.loads}) >= 2:
             self.classes.add('nontrivial')
         if self.loads and self.loads[-1][0] == 'corrupt':
             self.classes.add('failed_load_then_classify')
-        self.compare({'k': 'classify', 'txn': self.txns[t % len(self.txns)], 'rows': self.rows})
+        self.compare({'k': 'classify', 'txn': self.txns[t % len(self.txns)], 'rows': self.rows if with_rows else None})
 
     @precondition(lambda self: self.files is not None and any(f.get('edited') is not None for f in self.files))
     @rule(pick=st.integers(0, 9), mode=st.sampled_from(['first_match', 'most_specific', 'most_specific']))
@@ -412,7 +413,7 @@ def run_history(case):
             with open(path(s[1]), 'w', encoding='utf-8') as fh:
                 fh.write(s[2])
         elif s[0] == 'classify':
-            compare({'k': 'classify', 'txn': case['txns'][s[1]], 'rows': case['rows']})
+            compare({'k': 'classify', 'txn': case['txns'][s[1]], 'rows': case['rows'] if (len(s) < 3 or s[2]) else None})
         elif s[0] == 'engine':
             compare({'k': 'engine', 'path': path(s[1]), 'mode': s[3], 'txn': case['txns'][s[2]], 'rows': case['rows']})
         elif s[0] == 'eval':
